@@ -1,6 +1,8 @@
 // C07 failing-input search and witness replay, on the implementation alone.
 //   C07_search witness                -> replays the three Coq refutation witnesses (Ball verr, Ball aerr, NoSlip1D aerr)
-//   C07_search search <seed> <n>      -> n random constrained systems (Euler angles; every kind in turn; violated and projected):
+//   C07_search search <seed> <n>      -> n random constrained systems (Euler angles; EVERY constructible built-in constraint type in turn -- the 13 first-wave
+//        kinds, SphereOnPlaneContact, SphereOnSphereContact, LineOnLineContact (each with and without rolling), PointOnPlaneContact, PrescribedMotion --
+//        on body pairs biased towards both bodies moving and rotating; violated and projected; time advances with the motion):
 //        e_dq   : | d/dt qerr (central difference along qdot)  -  pverr |           relative
 //        e_du   : | d/dt uerr (central difference along qdot,udot) - udoterr |       relative
 //        e_G    : max | G(i,j) - d uerr_i / d u_j |   (uerr is affine in u: exact difference with a unit step)
@@ -62,10 +64,13 @@ int main(int argc, char** argv) {
     unsigned long long seed = std::strtoull(argv[2], 0, 10); int n = std::atoi(argv[3]);
     Rng r(seed); long evals = 0;
     for (int k = 0; k < n; ++k) {
-        int kind = k % K_NKINDS; int pair = r.I(0, 7); bool onman = (k / K_NKINDS) % 2 == 1;
+        // ALL constructible built-in types (first and second wave), whether modelled in Coq or not.  Pairs are biased towards both
+        // bodies moving and rotating in the Ancestor frame (different branches: pair codes 0, 5, 6).
+        static const int PAIRS[] = {0, 5, 6, 0, 5, 6, 1, 2, 3, 4, 7, 6};
+        int kind = k % K_NALL; int pair = PAIRS[r.I(0, 11)]; bool onman = (k / K_NALL) % 2 == 1;
         try {
-            ConSystem cs; cs.buildTree(r, onman || kind == K_WELD);
-            ConDesc d = kind <= K_NOSLIP ? cs.addBodyConstraint(r, kind, pair) : cs.addMobilityConstraint(r, kind);
+            ConSystem cs; cs.buildTree(r, onman || kind == K_WELD || kind >= K_NKINDS);
+            ConDesc d = isBodyKind(kind) ? cs.addBodyConstraint(r, kind, pair) : cs.addMobilityConstraint(r, kind);
             cs.finish(r); State& s = cs.state; const SimbodyMatterSubsystem& m = cs.matter;
             if (!cs.euler) { m.setUseEulerAngles(s, true); cs.sys.realizeModel(s);
                 for (int i = 0; i < s.getNQ(); ++i) s.updQ()[i] = r.U(0.1, 0.6) * (r.I(0, 1) ? 1 : -1);
@@ -75,10 +80,10 @@ int main(int argc, char** argv) {
             const int nq = s.getNQ(), nu = s.getNU(), mp = s.getNQErr(), mpv = s.getNUErr();
             Vector udot(nu); for (int i = 0; i < nu; ++i) udot[i] = r.U(-1, 1);
             Real h = 1e-6;
-            State sp = s, sm = s; sp.updQ() += h * s.getQDot(); sm.updQ() -= h * s.getQDot(); cs.sys.realize(sp, Stage::Position); cs.sys.realize(sm, Stage::Position);
+            State sp = s, sm = s; sp.updQ() += h * s.getQDot(); sm.updQ() -= h * s.getQDot(); sp.updTime() += h; sm.updTime() -= h; cs.sys.realize(sp, Stage::Position); cs.sys.realize(sm, Stage::Position);
             Vector dq = (sp.getQErr() - sm.getQErr()) / (2 * h); Real e_dq = mp ? relerr(dq, s.getUErr()(0, mp)) : 0;
             Vector pvaerr; m.calcConstraintAccelerationErrors(s, udot, pvaerr);
-            State ap = s, am = s; ap.updQ() += h * s.getQDot(); ap.updU() += h * udot; am.updQ() -= h * s.getQDot(); am.updU() -= h * udot;
+            State ap = s, am = s; ap.updQ() += h * s.getQDot(); ap.updU() += h * udot; am.updQ() -= h * s.getQDot(); am.updU() -= h * udot; ap.updTime() += h; am.updTime() -= h;
             cs.sys.realize(ap, Stage::Velocity); cs.sys.realize(am, Stage::Velocity);
             Vector du = (ap.getUErr() - am.getUErr()) / (2 * h); Real e_du = mpv ? relerr(du, pvaerr(0, mpv)) : 0;
             Matrix G; m.calcG(s, G); Real e_G = 0;
